@@ -25,9 +25,10 @@ TRUSTED = ["Lean 4.33 kernel", "axioms propext/Classical.choice/Quot.sound only"
            "harness/cfglib.py + harness/props/c11.py (snapshot comparison, alias probe)",
            "tools/extractors/clone.py (behavioural probe of the slots a real clone carries over)",
            "model Invoke/Model/Config.lean hand-written, tied by correspondence on every run"]
-ASSUMPTIONS = ["type-consistent values", "the pure Lean model has no object identity: independence and non-mutation of "
-               "supplied data are established on the real objects by snapshot comparison and the alias probe; Lean proves "
-               "that the clone's view is a function of the copied slots and that the copied slot list is complete",
+ASSUMPTIONS = ["type-consistent values", "the pure Lean model (tied by correspondence) has no object identity; the heap model "
+               "Model/ConfigHeap.lean used for copy_is_fresh / sources_unchanged is hand-written and NOT driven against the "
+               "implementation: on the real objects independence and non-mutation of supplied data are established by "
+               "snapshot comparison and the alias probe",
                "clone(into=Subclass): the clone must read like the original wherever the original defines a setting; "
                "settings only the subclass defaults define are additions"]
 
@@ -246,11 +247,14 @@ def run(ctx):
 
 
 LEVEL_TEXT = ("Lean 4 proofs: generated_clone_slots_complete (by decide over the slot list regenerated by behavioural probing "
-              "of the real Config.clone on every run), clone_slots_eq / clone_view_eq / clone_of_reachable (a clone of ANY configuration carries "
-              "every slot and therefore reads identically on every key path, because the view is a function of the slots), "
-              "clone_independent (frame theorem on the pair state) and the counterexample theorems for a clone that drops the "
-              "deletion marks / for the subclass-defaults overwrite (known finding); independence "
-              "and non-mutation of supplied data on the REAL objects are established by snapshot comparison after every "
-              "operation of generated histories plus an in-place alias probe, and the model is tied by correspondence")
+              "of the real Config.clone on every run), clone_slots_eq / clone_view_eq / clone_of_reachable (a clone of ANY "
+              "type-consistent / reachable configuration carries every slot and therefore reads identically on every key "
+              "path), clone_into_original_wins (clone(into=Subclass), path by path: the original wins, the subclass only "
+              "adds, deleted paths stay absent), clone_independent (frame theorem on the pair state); on a heap model of "
+              "copy_dict / merge_dicts / obliterate / excise / _modify / _remove / Config.merge (Nat-addressed dict objects): "
+              "copy_is_fresh (nothing reachable from a copy is reachable from its source) and sources_unchanged / "
+              "merge_dicts_leaves_sources (caller-held objects are never written, along whole histories); independence and "
+              "non-mutation on the REAL objects are established by snapshot comparison after every operation of generated "
+              "histories plus an in-place alias probe, and the pure model is tied by correspondence")
 TECHNIQUE = ("Lean 4 theorems (slot-function view, decide over generated slot table) + behavioural slot probing + "
              "snapshot/alias differential testing of real objects + model correspondence")
